@@ -105,11 +105,10 @@ type nopCloser struct{}
 
 func (nopCloser) Close() error { return nil }
 
-// failWriter: a link that takes `after` more bytes; then it fails (or, short, returns fewer bytes than asked without an
-// error: what io.Writer forbids and bufio turns into io.ErrShortWrite). got = what the link received.
+// failWriter: a link that takes `after` more bytes, then fails (a short write always comes with an error, as io.Writer
+// requires: bufio.Writer spins on a writer that returns (0, nil)). got = what the link received.
 type failWriter struct {
 	after int
-	short bool
 	got   []byte
 }
 
@@ -122,9 +121,6 @@ func (f *failWriter) Write(p []byte) (int, error) {
 	n := f.after
 	f.after = 0
 	f.got = append(f.got, p[:n]...)
-	if f.short {
-		return n, nil
-	}
 	return n, errors.New("link down")
 }
 
@@ -702,7 +698,7 @@ func framing(run *vh.Run) {
 		}
 		f.readAll(max, stream)
 	}
-	// (g) a writer whose link fails or accepts only part of a write after k bytes. Oracle: if WriteMsg reports success, the
+	// (g) a writer whose link fails after k bytes. Oracle: if WriteMsg reports success, the
 	// link has received exactly the message's frame (so the other node reads it back identically); a failure must be
 	// reported as an error, not as a panic
 	for i := 0; i < run.Pick(400, 3000); i++ {
@@ -713,7 +709,7 @@ func framing(run *vh.Run) {
 		}
 		m := f.randomMsg(n)
 		total := hdrLen + len(m.payload)
-		fw := &failWriter{after: rng.Intn(total + 1), short: rng.Chance(1, 3)}
+		fw := &failWriter{after: rng.Intn(total + 1)}
 		if rng.Chance(1, 6) {
 			fw.after = total + rng.Intn(10) // a healthy link
 		}
@@ -725,7 +721,7 @@ func framing(run *vh.Run) {
 		var err error
 		_, panicked := vh.Guard(func() string { err = rw.WriteMsg(m); return "" })
 		run.Eval("", false)
-		replay := map[string]interface{}{"message": showMsg(m), "link_accepts_bytes": fw.after, "short_write_without_error": fw.short, "link_got_bytes": len(fw.got)}
+		replay := map[string]interface{}{"message": showMsg(m), "link_got_bytes": len(fw.got)}
 		switch {
 		case panicked:
 			run.Count("write-failing-link=panic")
